@@ -1,4 +1,5 @@
 import JetVerif.Props.C09
+import JetVerif.Props.Restore
 open JetVerif.Props.C09
 #print axioms discarded_body_writes_nothing
 #print axioms exec_body_is_discarded
@@ -7,3 +8,8 @@ open JetVerif.Props.C09
 #print axioms return_value_merge
 #print axioms return_stmt_value
 #print axioms empty_list_returns_nil
+#print axioms JetVerif.Props.Restore.jet_restore_idioms_as_modelled
+#print axioms JetVerif.Props.Restore.jet_writer_restored_by_defer
+#print axioms JetVerif.Props.Restore.jet_handlers_restore_everything
+#print axioms JetVerif.Props.Restore.jet_include_scope_and_context_deferred
+#print axioms JetVerif.Props.Restore.jet_content_closure_restores_by_defer
